@@ -325,14 +325,22 @@ def runSimple (n : Nat) : List Ev :=
 /-- Node `k` of the ring, cyclically. -/
 def nodeAt (ring : Ring) (k : Nat) : Node := ring.getD (k % ring.length) ⟨0, false⟩
 
-/-- `_get_leftmost(start)`: position of the first node with minimal `x`, from the head. -/
+/-- The update test of `_get_leftmost`:
+`p.x < leftmost.x or (p.x == leftmost.x and p.y < leftmost.y)`. -/
+def leftOf (p best : V2 α) : Prop := p.x < best.x ∨ (p.x = best.x ∧ p.y < best.y)
+
+instance (p best : V2 α) : Decidable (leftOf p best) := by unfold leftOf; infer_instance
+
+/-- `_get_leftmost(start)`: position of the first node, from the head, that is minimal for
+"smaller `x`, ties by smaller `y`" (a later node with the same `x` and `y` does not replace
+an earlier one). -/
 def leftmostPos (ring : Ring) : Nat :=
   match ring with
   | [] => 0
   | h :: _ =>
-    ((List.range ring.length).foldl (fun (best : Nat × α) k =>
-      let x := (v (nodeAt ring k).i).x
-      if x < best.2 then (k, x) else best) (0, (v h.i).x)).1
+    ((List.range ring.length).foldl (fun (best : Nat × V2 α) k =>
+      let p := v (nodeAt ring k).i
+      if leftOf p best.2 then (k, p) else best) (0, v h.i)).1
 
 /-- `x > q` where `none` stands for `float('-inf')`. -/
 def aboveOpt (q : Option α) (x : α) : Bool :=
@@ -455,15 +463,25 @@ def eliminateHole (st : HState) (hring : Ring) : Except String HState :=
 def holeRanges (holes : List Nat) (n : Nat) : List (List Nat) :=
   (holes.zip (holes.drop 1 ++ [n])).map fun se => (List.range (se.2 - se.1)).map (· + se.1)
 
+/-- Sort key of `sorted(queue, key=lambda i: i.x)`: `x` of the ring's head node. -/
+def headX (r : Ring) : α := (v (r.head?.getD ⟨0, false⟩).i).x
+
+/-- Insert a ring before the first ring of the (sorted) list whose key is not smaller. -/
+def insertByX (r : Ring) : List Ring → List Ring
+  | [] => [r]
+  | s :: t => if headX v r ≤ headX v s then r :: s :: t else s :: insertByX r t
+
+/-- `sorted(queue, key=lambda i: i.x)`: stable insertion sort (rings with equal keys keep
+their order), structurally recursive so that concrete runs evaluate in the kernel. -/
+def sortByX (l : List Ring) : List Ring := l.foldr (insertByX v) []
+
 /-- First loop of `_eliminate_holes`: every hole as a ring seen from its leftmost node
 (single-vertex holes are Steiner points), sorted by that node's `x` (stable). -/
 def holeQueue (holes : List Nat) (n : Nat) : List Ring :=
-  let rings := (holeRanges holes n).map fun idx =>
+  sortByX v ((holeRanges holes n).map fun idx =>
     let l := linkedList v idx false
     let l := if l.length = 1 then l.map fun nd => { nd with st := true } else l
-    l.rotate (leftmostPos v l)
-  rings.mergeSort fun r1 r2 =>
-    decide ((v (r1.head?.getD ⟨0, false⟩).i).x ≤ (v (r2.head?.getD ⟨0, false⟩).i).x)
+    l.rotate (leftmostPos v l))
 
 /-- `_eliminate_holes(data, hole_indices, outerNode, dim)`. -/
 def eliminateHoles (outer : Ring) (holes : List Nat) (n : Nat) : Except String HState :=
